@@ -389,6 +389,9 @@ func (w *World) checkCloseOracles(v *Node) {
 				if rec == nil || rec.Spec.Mode == "blackhole" {
 					continue
 				}
+				if rec.Done && rec.EndEv < v.closeCalledEv {
+					continue // over (for its caller) before Close began: whatever became of it, Close did not drop it
+				}
 				if v.LogMsgs["Couldn't send outbound frame."] > 0 {
 					w.probe("C07.error-frame-dropped-send-buffer-full")
 					continue // the (configured, tiny) send buffer was full: the library drops error frames by design then
